@@ -177,27 +177,34 @@ def run_check(pid, tier, seed, replay=None):
         fatal = traceback.format_exc()
         print(fatal, flush=True)
 
-    # L2-only breakage: the theorem no longer speaks about this code
-    if ctx.l2 and not any(v["found_input"] for v in ctx.violations):
-        names = ", ".join(d["name"] for d in ctx.l2)
-        ctx.violation("correspondence:" + names,
-                      f"model correspondence no longer checks ({names}); search found no input violating the property text",
-                      {"broken_correspondence": [d["name"] for d in ctx.l2],
-                       "theorems": [t["name"] for t in (ctx.obl or {}).get("theorems", [])],
-                       "disagreeing_cases": ctx.l2}, found_input=False)
-
     known = load_known()["findings"]
-    unlisted = []
-    for v in ctx.violations:
-        hit = None
-        for k in known:
-            if k.get("status") == "known" and k["property"] == pid and k["signature"] == v["signature"]:
-                hit = k
-        if hit:
-            if hit["signature"] not in [h["signature"] for h in ctx.known_hits]:
-                ctx.known_hits.append(dict(signature=hit["signature"], what=hit["what"]))
-        else:
-            unlisted.append(v)
+
+    def split_known(vs):
+        unl = []
+        for v in vs:
+            hit = None
+            for k in known:
+                if k.get("status") == "known" and k["property"] == pid and k["signature"] == v["signature"]:
+                    hit = k
+            if hit:
+                if hit["signature"] not in [h["signature"] for h in ctx.known_hits]:
+                    ctx.known_hits.append(dict(signature=hit["signature"], what=hit["what"]))
+            else:
+                unl.append(v)
+        return unl
+
+    unlisted = split_known(ctx.violations)
+    # L2-only breakage: the theorem no longer speaks about this code. Reported unless a violation with a concrete
+    # failing input (that is not a listed known finding) is already being reported.
+    if ctx.l2 and not any(v["found_input"] for v in unlisted):
+        names = ", ".join(d["name"] for d in ctx.l2)
+        v = dict(signature="correspondence:" + names,
+                 what=f"model correspondence no longer checks ({names}); search found no input violating the property text",
+                 replay={"broken_correspondence": [d["name"] for d in ctx.l2],
+                         "theorems": [t["name"] for t in (ctx.obl or {}).get("theorems", [])],
+                         "disagreeing_cases": ctx.l2}, found_input=False)
+        ctx.violations.append(v)
+        unlisted.append(v)
     for h in ctx.known_hits:
         print(f"KNOWN-FINDING: property={pid} {h['what']}", flush=True)
     write_evidence(ctx, len(unlisted))
